@@ -3,7 +3,7 @@
 #   patch applies, library builds, test suite passes (ice connection test excluded: needs Internet),
 #   demo shows the violation with the change and not without it.  Prints a summary; writes /tmp/seed/C07/_seed/A/confirm.log
 id=$1; v=$2
-wt=/tmp/seed/$id; sd=$wt/_seed/$v
+wt=${SEED_DIR:-/tmp/seed}/$id; sd=$wt/_seed/$v
 log=$sd/confirm.log
 : > $log
 git -C $wt checkout -q -- src || exit 2
